@@ -479,7 +479,8 @@ Record sess := mksess {
   s_peer : ipcp_peer;
   s_addr : option bytes;      (* SessionState.IPv4Address / Session.IPv4Address *)
   s_open : bool;              (* ipcpOpen *)
-  s_lastreq : list opt        (* options of our last Configure-Request *)
+  s_lastreq : list opt;       (* options of our last Configure-Request *)
+  s_dns : bytes * bytes       (* SessionState.DNS1 / DNS2 once startNCP has run (AAA values or the defaults) *)
 }.
 
 (* every scr rebuilds our request from the configuration as it is at that moment *)
@@ -511,7 +512,7 @@ Record oracle := mkorc {
 Definition dns_default1 : bytes := (v4prefix ++ [8;8;8;8])%N.
 Definition dns_default2 : bytes := (v4prefix ++ [8;8;4;4])%N.
 Definition start_ncp (fl : flags) (ow : owner) (c : ipcp_cfg) (st : N) (p : ipcp_peer) (addr : option bytes)
-           (op : bool) (last : list opt) (orc : oracle) : sess * list act :=
+           (op : bool) (last : list opt) (dns : bytes * bytes) (orc : oracle) : sess * list act :=
   let addr1 := match addr with
                | None => or_alloc orc
                | Some a => match ow with
@@ -525,15 +526,24 @@ Definition start_ncp (fl : flags) (ow : owner) (c : ipcp_cfg) (st : N) (p : ipcp
                     | _, _ => ipcp_set_peer fl c p addr1
                     end in
     let c2 := match ow with
-              | PPPoE => mkicfg (ic_assigned c1) (to4 dns_default1) (to4 dns_default2) (ic_local c1) (ic_rejected c1)
+              | PPPoE => mkicfg (ic_assigned c1) (to4 (fst dns)) (to4 (snd dns)) (ic_local c1) (ic_rejected c1)
               | LNS => c1
               end in
     let (a, st') := up_open st in
-    (mksess ow c2 st' p1 addr1 op (next_req c2 a last), a)
-  else (mksess ow c st p None op last, []).
+    (mksess ow c2 st' p1 addr1 op (next_req c2 a last) dns, a)
+  else (mksess ow c st p None op last dns, []).
 
+(* extractIPFromAttributes stores AAA DNS servers in DNS1/DNS2; startNCP fills in 8.8.8.8 / 8.8.4.4 for
+   whatever is still nil *)
+Definition dns_of (aaa_dns : option bytes * option bytes) : bytes * bytes :=
+  (match fst aaa_dns with Some d => d | None => dns_default1 end,
+   match snd aaa_dns with Some d => d | None => dns_default2 end).
+
+Definition sess_start_dns (fl : flags) (ow : owner) (aaa : option bytes) (aaa_dns : option bytes * option bytes)
+           (orc : oracle) : sess :=
+  fst (start_ncp fl ow (mk_ipcp_cfg None None) 0 ipeer0 (extract_ip fl aaa) false [] (dns_of aaa_dns) orc).
 Definition sess_start (fl : flags) (ow : owner) (aaa : option bytes) (orc : oracle) : sess :=
-  fst (start_ncp fl ow (mk_ipcp_cfg None None) 0 ipeer0 (extract_ip fl aaa) false [] orc).
+  sess_start_dns fl ow aaa (None, None) orc.
 
 (* installInMemoryState (internal/pppoe/component.go) for a checkpointed session in PhaseOpen with an IPv4
    address: initPPP (fresh IPCP object), FSM.Restore (straight to Opened, nothing sent), ipcpOpen = true.
@@ -541,13 +551,13 @@ Definition sess_start (fl : flags) (ow : owner) (aaa : option bytes) (orc : orac
 Definition sess_restore (fl : flags) (addr : bytes) (dns1 dns2 : option bytes) : sess :=
   if f_restore fl then
     (* before 8205ad2: nothing assigned; guard "address != nil" *)
-    mksess PPPoE (mk_ipcp_cfg None None) 9 ipeer0 (Some addr) true []
+    mksess PPPoE (mk_ipcp_cfg None None) 9 ipeer0 (Some addr) true [] (dns_default1, dns_default2)
   else if f_rguard fl || usable (Some addr) then
     (* 8205ad2: SetPeerAddress, SetDNS, Restore.  f_rguard: the guard is still "address != nil" *)
-    mksess PPPoE (mk_ipcp_cfg (Some addr) (Some (dns1, dns2))) 9 ipeer0 (Some addr) true []
+    mksess PPPoE (mk_ipcp_cfg (Some addr) (Some (dns1, dns2))) 9 ipeer0 (Some addr) true [] (dns_default1, dns_default2)
   else
     (* repaired guard: an unusable checkpointed address does not restore IPCP and is dropped *)
-    mksess PPPoE (mk_ipcp_cfg None None) 0 ipeer0 None false [].
+    mksess PPPoE (mk_ipcp_cfg None None) 0 ipeer0 None false [] (dns_default1, dns_default2).
 
 (* callbacks LayerUp = onIPCPUp, LayerDown = onIPCPDown *)
 Definition on_act (fl : flags) (p : ipcp_peer) (st : option bytes * bool) (a : act) : option bytes * bool :=
@@ -611,7 +621,7 @@ Inductive sev :=
 Definition sess_fsm_only (fl : flags) (s : sess) (c' : ipcp_cfg) (r : list act * N) : sess * list act :=
   let (a, st') := r in
   let (ad, op) := fold_left (on_act fl (s_peer s)) a (s_addr s, s_open s) in
-  (mksess (s_owner s) c' st' (s_peer s) ad op (next_req c' a (s_lastreq s)), a).
+  (mksess (s_owner s) c' st' (s_peer s) ad op (next_req c' a (s_lastreq s)) (s_dns s), a).
 
 (* onLCPDown as the NCP sees it *)
 Definition sess_down (fl : flags) (s : sess) : sess * list act :=
@@ -625,7 +635,7 @@ Definition sess_step (fl : flags) (s : sess) (e : sev) : sess * list act :=
   | EvReq id wire =>
       let '(a, st', p') := ipcp_input (s_cfg s) (s_fsm s) (s_peer s) id wire in
       let (ad, op) := fold_left (on_act fl p') a (s_addr s, s_open s) in
-      (mksess (s_owner s) (s_cfg s) st' p' ad op (next_req (s_cfg s) a (s_lastreq s)), a)
+      (mksess (s_owner s) (s_cfg s) st' p' ad op (next_req (s_cfg s) a (s_lastreq s)) (s_dns s), a)
   | EvAck => sess_fsm_only fl s (ipcp_learn (s_cfg s) (s_lastreq s)) (rca_event (s_fsm s) 0)
   | EvAckW w => sess_fsm_only fl s (ipcp_learn (s_cfg s) (parse_lenient w)) (rca_event (s_fsm s) 0)
   | EvNak w => sess_fsm_only fl s (ipcp_learn (s_cfg s) (parse_lenient w)) (rcn_event (s_fsm s) 0)
@@ -639,7 +649,7 @@ Definition sess_step (fl : flags) (s : sess) (e : sev) : sess * list act :=
       (* onLCPDown first; the session address is kept unless AAA delivers a new one; then startNCP again *)
       let (s1, a1) := sess_down fl s in
       let addr := match extract_ip fl aaa with Some x => Some x | None => s_addr s1 end in
-      let (s2, a2) := start_ncp fl (s_owner s1) (s_cfg s1) (s_fsm s1) (s_peer s1) addr (s_open s1) (s_lastreq s1) orc in
+      let (s2, a2) := start_ncp fl (s_owner s1) (s_cfg s1) (s_fsm s1) (s_peer s1) addr (s_open s1) (s_lastreq s1) (s_dns s1) orc in
       (s2, a1 ++ a2)
   end.
 
